@@ -256,7 +256,7 @@ def extra_checks(corpus, tier, model, impl):
     if os.path.exists(root):
         shutil.rmtree(root)
     os.makedirs(os.path.join(root, "src"))
-    shutil.copy(os.path.join(R.REPO, "Cargo.lock"), os.path.join(root, "Cargo.lock"))
+    shutil.copy(R.lockfile(), os.path.join(root, "Cargo.lock"))
     with open(os.path.join(root, "Cargo.toml"), "w") as f:
         f.write('[package]\nname = "c20diag"\nversion = "0.0.0"\nedition = "2021"\n[workspace]\n[dependencies]\nstrum = { path = "%s/strum", features = ["derive"] }\n' % R.REPO)
     lines = ["#![allow(dead_code, unused, non_camel_case_types, deprecated)]",
